@@ -227,6 +227,24 @@ def run(ctx):
                 ctx.violation('output built from a public key / hash does not commit to that key\'s hash',
                               {'op': 'output-from-' + how, 'network': net, 'pubkey': k.public_byte.hex(),
                                'observed': None if o is None else o.lock_script.hex()})
+        # a bare 20-byte hash given as BYTES (whatever its bytes look like: hexadecimal digits, blanks, a witness-program header), through
+        # the Output class and through Transaction.add_output: the script commits to exactly these 20 bytes
+        for _ in range(4):
+            hp = payload(20)
+            for how, fn in (('Output(public_hash)', lambda: Output(1000, public_hash=hp, network=net)),
+                            ('add_output(public_hash)', lambda: Transaction(network=net).add_output(1000, public_hash=hp) or True)):
+                ctx.count('from-hash-bytes:' + how)
+                ctx.evals += 1
+                if how.startswith('add_output'):
+                    t_ = att(lambda: Transaction(network=net))
+                    r_ = att(lambda: t_.add_output(1000, public_hash=hp)) if t_ is not None else None
+                    sc_ = t_.outputs[-1].lock_script if (t_ is not None and t_.outputs) else None
+                else:
+                    o_ = att(fn)
+                    sc_ = None if o_ is None else o_.lock_script
+                if sc_ is None or sc_ not in (b'\x76\xa9\x14' + hp + b'\x88\xac', b'\x00\x14' + hp):
+                    ctx.violation('output built from a 20-byte hash given as bytes does not commit to these bytes',
+                                  {'op': 'output-from-hash-bytes', 'how': how, 'network': net, 'hash': hp.hex(), 'observed': None if sc_ is None else sc_.hex()})
         hk = att(lambda: HDKey.from_seed(bytes(rng.randrange(256) for _ in range(32)), network=net, witness_type='segwit'))
         if hk is not None:
             hh = RIPEMD160.new(hashlib.sha256(hk.public_byte).digest()).digest()
